@@ -56,7 +56,8 @@ PROPS = {
     "C01": {
         "v_units": ["capacity.py", "compress.py"],
         "r": [("compress", lambda n: "unpack_array_len" in n),
-              ("prover", lambda n: n.startswith("prover.") or n.startswith("lemma.") or n.startswith("quotient.")), ("verifier", lambda n: n.startswith("verifier.") or n.startswith("proof.verify"))],
+              ("prover", lambda n: n.startswith("prover.") or n.startswith("lemma.") or n.startswith("quotient.")), ("verifier", lambda n: n.startswith("verifier.") or n.startswith("proof.verify")),
+              ("linearization", None)],
         "claim": "function-level necessary conditions of completeness only: (a) prover/verifier agreement - the Fiat-Shamir schedule "
                  "the real prove_inner performs (trace-only symbolic run) is the protocol schedule, and is event-for-event the one "
                  "Proof::verify rebuilds from the returned proof (contract-level lemma); the two opening lists are the verifier's "
@@ -69,7 +70,7 @@ PROPS = {
         "design_ref": "DESIGN.md §4 C01",
         "assumptions": A_RING + A_VERUS,
         "trusted": T_RING + T_VERUS,
-        "not_covered": ["algebraic completeness (A1)", "trim / Prover::new / quotient split index arithmetic (not yet under contract)"],
+        "not_covered": ["algebraic completeness (A1)", "Prover::new index arithmetic (not yet under contract)"],
     },
     "C02": {
         "r": [("verifier", lambda n: n.startswith("proof.") or n.startswith("verifier.verify_with_version")), ("widgets", vk_unit),
@@ -141,14 +142,15 @@ PROPS = {
     },
     "C05": {
         "r": [("widgets", pk_unit), ("prover", lambda n: n.startswith("quotient.") or n.startswith("prover.prove_inner")), ("composer_leaves", lambda n: "internal" in n),
-              ("permutation", None)],
+              ("permutation", None), ("linearization", None)],
         "claim": "the five ProverKey::compute_quotient_i / compute_linearization and the permutation quotient/linearizer "
                  "terms equal, as polynomials in all their inputs, the gate identities of specs/ring/protocol.py times "
                  "selector and separation challenge (all field values, all rows); quotient_poly::compute returns "
                  "Err(CircuitUnsatisfied) exactly when the interpolated quotient has more than 7n coefficients and Ok(it) otherwise; "
                  "append_custom_gate_internal records every appended row's four wires in the permutation map and pushes the "
                  "constraint's selectors verbatim (effect trace)."
-                 "Also: compute_permutation_vec (its only exit is the zero-denominator assert; instances n = 1, 2, 4 of the grand product), compute_sigma_permutations instances, prove_inner's exits and the exact inputs of quotient_poly::compute.",
+                 "Also: compute_permutation_vec (its only exit is the zero-denominator assert; instances n = 1, 2, 4 of the grand product), compute_sigma_permutations instances, prove_inner's exits and the exact inputs of quotient_poly::compute. "
+                 "The prover's linearisation polynomial r(X) (linearization_poly::compute, compute_circuit_satisfiability, the prover half of the permutation widget) equals the protocol's r(X) over the CIRCUIT'S domain; every slice / index of the quotient's coefficient vector in prove_inner is justified by an established length bound (len >= 3n+1), so degenerate blinders cannot panic the split.",
         "technique": "contract-based deductive verification: ring/trace contract checker (exact polynomial normal form)",
         "level_note": "Decides only the per-row identities computed by the prover. Not decided: the equivalence between "
                       "`quotient degree <= 7n` and row-wise satisfaction (polynomial division over the FFT), sigma construction.",
@@ -156,7 +158,7 @@ PROPS = {
         "assumptions": A_RING,
         "trusted": T_RING,
         "not_covered": ["returns a proof exactly when every row identity holds (A2)", "compute_sigma_permutations (A3)",
-                        "never panics (quotient split, see DESIGN §6.1)"],
+                        "panic-freedom of prove_inner beyond the quotient split (havocked statements are not index-checked)"],
     },
     "C07": {
         "v_units": ["logic.py"],
